@@ -51,6 +51,9 @@ type Spec struct {
 	ThoroughBudget time.Duration
 	// MaxShards caps the number of worker processes (0 = NumCPU).
 	MaxShards int
+	// MaxConfirm caps how many fresh violations are re-executed 5x in fresh
+	// processes before being reported (0 = 25); the rest are reported as found.
+	MaxConfirm int
 	// MemLimitMB, when > 0, is applied to workers via debug.SetMemoryLimit
 	// plus RLIMIT_AS through the shell wrapper.
 	MemLimitMB int
@@ -589,6 +592,20 @@ func doParent(spec *Spec, tier string, seed int64, work string) int {
 		}
 		fresh = append(fresh, v)
 	}
+	// development aid (never set by the registered commands): dump every
+	// fresh violation as a candidate known-finding line for manual review
+	if cand := os.Getenv("VERIF_FINDINGS_CANDIDATES"); cand != "" {
+		var sb strings.Builder
+		for _, v := range fresh {
+			fd := Finding{Status: "known", Property: spec.ID, Key: v.Key, What: firstLine(v.Msg, 160)}
+			b, _ := json.Marshal(fd)
+			sb.Write(b)
+			sb.WriteByte('\n')
+		}
+		os.WriteFile(cand, []byte(sb.String()), 0o644)
+		fmt.Fprintf(os.Stderr, "wrote %d candidate findings to %s (review before committing)\n", len(fresh), cand)
+		fresh = nil
+	}
 	// confirm fresh violations: 5 re-executions in fresh processes
 	repDir := filepath.Join(VerifDir, "replays")
 	os.MkdirAll(repDir, 0o755)
@@ -596,6 +613,9 @@ func doParent(spec *Spec, tier string, seed int64, work string) int {
 	var paths []string
 	flaky := 0
 	maxConfirm := 25
+	if spec.MaxConfirm > 0 {
+		maxConfirm = spec.MaxConfirm
+	}
 	for i, v := range fresh {
 		rf := ReplayFile{Property: spec.ID, Key: v.Key, Msg: v.Msg, Kind: v.Kind, Case: v.Case,
 			How: "cd /verif && ./run replay <this file>"}
@@ -700,6 +720,16 @@ func doParent(spec *Spec, tier string, seed int64, work string) int {
 		return 1
 	}
 	return 0
+}
+
+func firstLine(s string, n int) string {
+	if i := strings.IndexByte(s, '\n'); i >= 0 {
+		s = s[:i]
+	}
+	if len(s) > n {
+		s = s[:n] + "..."
+	}
+	return s
 }
 
 func shortHash(b []byte) string {
